@@ -106,6 +106,9 @@ RenderMatchesRule ==
 \* the stack/dfs generator builds the path trie
 ForestMatchesTrie == (an.verdict = "accept") => CodeForest = RuleForest
 
+\* ... and the trie composes: a root's tree is its name over the trees of its children's sub-documents (Forest.tla 3a)
+ForestComposes == (an.verdict = "accept") => TrieComposes(an.items)
+
 \* C05: walk records
 WalkMatchesRule ==
   (an.verdict = "accept") => CodeWalk(gs.nodes, gs.roots, LastBy) = RuleWalk(RuleForest)
